@@ -161,8 +161,99 @@ def _run_part_hyp(part, ctx, deadline_at):
     if failures:
         failures.sort(key=lambda f: f[0])
         _, case, rel, det = failures[0]
+        try:
+            small = reduce_case(part, case, rel, ctx, 20.0 if ctx.tier == "quick" else 90.0)
+            if small is not case:
+                try:
+                    part.check(small, Ctx(ctx.pid, ctx.tier, ctx.seed, flags=ctx.flags))
+                except Violation as v:
+                    case, det = small, v.detail
+                except BaseException:
+                    pass
+        except BaseException:
+            pass
         return {"part": part.name, "relation": rel, "detail": det, "case": case}, stopped[0]
     return None, stopped[0]
+
+
+# ---- spec-level reducer (runs after Hypothesis; keeps the same relation failing) ----------------------------
+def _candidates(x, path=()):
+    """Yield (path, replacement) pairs describing one local simplification of the JSON value x."""
+    if isinstance(x, list):
+        for i in range(len(x)):
+            yield path, x[:i] + x[i + 1:]
+        for i, v in enumerate(x):
+            yield from _candidates(v, path + (i,))
+    elif isinstance(x, dict):
+        if "k" in x and x.get("k") not in ("val",):
+            yield path, {"k": "val", "v": None}
+            for key, v in x.items():
+                if isinstance(v, dict) and "k" in v:
+                    yield path, v
+                if isinstance(v, list):
+                    for it in v:
+                        if isinstance(it, dict) and "k" in it:
+                            yield path, it
+                        if isinstance(it, list):
+                            for it2 in it:
+                                if isinstance(it2, dict) and "k" in it2:
+                                    yield path, it2
+            for key in [k for k in x if k not in ("k", "key", "name", "body", "src", "disp", "items", "members", "lookup", "cases", "iters", "as", "fn", "s", "params", "v", "base", "op", "opts", "force", "table", "else", "args", "kwargs")]:
+                y = dict(x)
+                del y[key]
+                yield path, y
+        elif "k" not in x:
+            for key in list(x):
+                y = dict(x)
+                del y[key]
+                yield path, y
+        for key, v in x.items():
+            yield from _candidates(v, path + (key,))
+
+
+def _replace(x, path, new):
+    if not path:
+        return new
+    if isinstance(x, list):
+        y = list(x)
+        y[path[0]] = _replace(x[path[0]], path[1:], new)
+        return y
+    y = dict(x)
+    y[path[0]] = _replace(x[path[0]], path[1:], new)
+    return y
+
+
+def reduce_case(part, case, relation, ctx, budget_s):
+    """Greedy structural reduction of a failing case under a time budget."""
+    t_end = time.time() + budget_s
+
+    def fails(c):
+        try:
+            sub = Ctx(ctx.pid, ctx.tier, ctx.seed, flags=ctx.flags)
+            sub.current_part = part.name
+            part.check(c, sub)
+            return False
+        except Violation as v:
+            return v.relation == relation
+        except BaseException:
+            return False
+
+    best = case
+    size = len(canon(best))
+    improved = True
+    while improved and time.time() < t_end:
+        improved = False
+        for path, new in _candidates(best):
+            if time.time() > t_end:
+                break
+            cand = _replace(best, path, new)
+            n = len(canon(cand))
+            if n >= size:
+                continue
+            if fails(cand):
+                best, size, improved = cand, n, True
+                break
+    return best
 
 
 def _run_part_enum(part, ctx, deadline_at):
